@@ -43,7 +43,7 @@ class C13(Prop):
             "run without -a occurs in the same order and direction inside the -a datagrams; one evaluation = one pair; "
             "non-trivial = the run without -a exported data and -a changed the output; distinct = spec digests")
     reach = ["tls", "quic", "a_added_packets", "hello_spans_packets", "multi_conn", "alert_followed_by_data",
-             "encrypted_hello_request_mid_connection"]
+             "encrypted_hello_request_mid_connection", "damaged_application_record"]
 
     def plan(self, tier):
         p = super().plan(tier)
@@ -62,6 +62,22 @@ class C13(Prop):
             if c["proto"] == "tls" and len(c.get("recs", [])) >= 2 and R.chance(15):
                 c["alert_mid"] = R.range(1, len(c["recs"]) - 1)
                 c["close"] = False
+        D = R.fork("damage")
+        tl = [c for c in spec["conns"] if c["proto"] == "tls" and c["ver"] != T.TLS13]
+        if tl and D.chance(20):
+            # one application record of a TLS <= 1.2 connection is damaged on the wire (a bit of its ciphertext flipped,
+            # checksum recomputed): whatever the plain export makes of it, -a must not add it as "metadata"
+            v = D.choice(tl)
+            ex = world.expand(spec)
+            t = [x for x in ex["truth"]["conns"] if x["id"] == v["id"]][0]
+            apps = [r for r in t["records"] if r["kind"] == "app" and r["hi"] - r["lo"] > 8]
+            if apps:
+                r = D.choice(apps)
+                pos = D.range(r["lo"] + 5, r["hi"] - 1)
+                fr = [f for f in t["frames"] if f["d"] == r["d"] and f["lo"] <= pos < f["hi"] and not f["dup"]]
+                if fr:
+                    spec["faults"] = [{"k": "flip", "i": fr[0]["i"], "off": pos - fr[0]["lo"], "bit": D.below(8), "fix": True}]
+                    spec["damaged_app_record"] = True
         return spec
 
     def check(self, lane, spec):
@@ -109,6 +125,18 @@ class C13(Prop):
                 if not subsequence(seq0, seq1):
                     out.violate("application-packets-unchanged", "tls-data-packets-not-subsequence",
                                 "conn %d: %d data packets without -a, %d with -a; %s" % (c["id"], len(seq0), len(seq1), describe_conn(conn)))
+                if conn["ver"] != T.TLS13:
+                    plain = set(p for _, p in seq0)
+                    for d_, p in seq1:
+                        if len(p) >= 5 and p[0] == 0x17 and p[1] == 3 and p[2] <= 3 and \
+                                int.from_bytes(p[3:5], "big") == len(p) - 5 and p not in plain:
+                            out.violate("a-adds-only-handshake-alert-ccs-material", "application-record-exported-undecrypted",
+                                        "conn %d: -a added a packet that is an application data record as captured "
+                                        "(%d bytes, %s...); %s" % (c["id"], len(p), p[:8].hex(), describe_conn(conn)))
+                            break
+                    if spec.get("damaged_app_record"):
+                        out.count("reach:damaged_application_record")
+                        out.count("fault:ciphertext_bit_flipped")
                 ch = bytes.fromhex(c["keys"]["ch_record"])
                 sh = bytes.fromhex(c["keys"]["sh_record"]) if c["keys"].get("sh_record") else None
                 cs = [p for d, p in seq1 if d == "c"]
